@@ -11,7 +11,10 @@ EXTENDS Integers, Sequences, TLC, IOUtils
 \* repfails: transport failures of BranchReport before it succeeds
 Scen == {s \in [mode : {"auto", "explicit"}, kind : {"ins", "upd", "del", "upsh", "upsm"}, rows : 0..2,
                reg : {"ok", "conflict", "fail", "neterr"}, failAt : 0..9, repfails : {0, 1, 2, 5},
-               then : {"none", "upd0", "del0"}] :
+               then : {"none", "upd0", "del0"}, past : {"none", "gauto", "lexp"}] :
+           \* past: what the pooled connection was used for before (not part of the trace): an autocommit statement of an
+           \* earlier global transaction, or an explicit local transaction outside any global transaction
+           /\ s.past # "none" => (s.reg = "ok" /\ s.failAt = 0 /\ s.repfails = 0 /\ s.then = "none" /\ s.rows >= 1)
            \* then: a second statement in the same explicit local transaction that matches no row (its images are empty)
            /\ s.then # "none" => (s.mode = "explicit" /\ s.reg = "ok" /\ s.failAt = 0 /\ s.repfails = 0)
            /\ s.kind \in {"ins", "upsh", "upsm"} => s.rows >= 1
@@ -23,7 +26,8 @@ Scen == {s \in [mode : {"auto", "explicit"}, kind : {"ins", "upd", "del", "upsh"
 \* thorough: database faults also in the two-statement transactions, fault positions up to 12
 ScenT == {s \in [mode : {"auto", "explicit"}, kind : {"ins", "upd", "del", "upsh", "upsm"}, rows : 0..2,
                 reg : {"ok", "conflict", "fail", "neterr"}, failAt : 0..12, repfails : {0, 1, 2, 5},
-                then : {"none", "upd0", "del0"}] :
+                then : {"none", "upd0", "del0"}, past : {"none", "gauto", "lexp"}] :
+           /\ s.past # "none" => (s.reg = "ok" /\ s.failAt \in {0, 3, 5} /\ s.repfails = 0 /\ s.then = "none" /\ s.rows >= 1)
            /\ s.then # "none" => (s.mode = "explicit" /\ s.reg = "ok" /\ s.repfails = 0)
            /\ s.then = "none" => s.failAt <= 9
            /\ s.kind \in {"ins", "upsh", "upsm"} => s.rows >= 1
